@@ -181,6 +181,7 @@ DumpPredictable(t, o) ==
   /\ \A i \in 1..Len(ds) : /\ ds[i].key \in DOMAIN o
                             /\ (ds[i].f \in {"q", "qb"} => PlainText(o[ds[i].key]) /\ Short(o[ds[i].key]))
                             /\ (ds[i].key \notin BoolKeys \cup U32Keys \cup NumKeys \cup {"ReasonCode"} => Short(o[ds[i].key]))
+  /\ (t = 8 => o["SubscriptionID"] < 2147483647)          \* (larger identifiers are logged clamped)
   /\ (t \in {8, 10} => Len(o["Filters"]) <= 20 /\ \A i \in 1..Len(o["Filters"]) : Short(IF t = 8 THEN o["Filters"][i][1] ELSE o["Filters"][i]))
   /\ ("UserProperties" \in DOMAIN o => Len(o["UserProperties"]) <= 20 /\ \A i \in 1..Len(o["UserProperties"]) :
                                                 Short(o["UserProperties"][i][1]) /\ Short(o["UserProperties"][i][2]))
